@@ -90,9 +90,12 @@ def decode_path(p):
 
 def decode_op(t):
     sel, p = t
-    kind = ('set', 'set', 'set', 'set', 'set', 'set', 'clear', 'push', 'push', 'setsub', 'twice', 'move')[sel % 12]
+    kind = ('set', 'set', 'set', 'set', 'set', 'set', 'clear', 'push', 'push', 'setsub', 'twice', 'move', 'reinsert',
+            'reinsert')[sel % 14]
     if kind == 'move':
         return ['move', p % 16, (p // 16) % 64]
+    if kind == 'reinsert':
+        return ['reinsert', p % 32, decode_path((p // 32) % (6 * 4096))]
     if kind == 'set':
         return ['set', decode_path(p % (6 * 4096)), (p // (6 * 4096)) % 8]
     if kind == 'twice':
@@ -103,7 +106,7 @@ def decode_op(t):
 
 
 def strategy():
-    op = st.tuples(st.integers(0, 11), worldops.packed(16 * 6 * 4096 * 8)).map(decode_op)
+    op = st.tuples(st.integers(0, 13), worldops.packed(16 * 6 * 4096 * 8)).map(decode_op)
     # amp: 0, or how many layers every push_layer operation pushes (maps with dozens of handle layers, as repeated
     # population with nesting produces)
     return st.fixed_dictionaries({'ops': worldops.chunked(op, 40),
@@ -140,6 +143,7 @@ class Run:
         self.model = MMap(self.root)
         self.flags = collections.Counter()
         self.step_ix = -1
+        self.orphans = []
 
     def viol(self, clause, **d):
         d['step'] = self.step_ix
@@ -206,7 +210,7 @@ class Run:
         for sub in names[:-1]:
             for layer in mm.layers:
                 if sub in layer:
-                    layer.pop(sub)
+                    self.orphan(layer.pop(sub), mm)
                     self.flags['intermediate_replaces_handle'] += 1
             if sub not in mm.maps:
                 mm.maps[sub] = MMap(None)       # object learnt from the implementation afterwards
@@ -216,21 +220,33 @@ class Run:
         if isinstance(node, MMap):
             for layer in mm.layers:
                 if last in layer:
-                    layer.pop(last)
+                    self.orphan(layer.pop(last), mm)
                     self.flags['map_replaces_handle'] += 1
             if last in mm.maps:
                 self.flags['map_replaces_map'] += 1
+                if mm.maps[last] is not node:
+                    self.orphan(mm.maps[last], mm)
             mm.maps[last] = node
         else:
             if last in mm.maps:
                 self.flags['handle_replaces_subtree'] += 1
-                del mm.maps[last]
+                self.orphan(mm.maps.pop(last), mm)
             if mm.visible(last) is not None:
                 self.flags['handle_overwrites_handle'] += 1
+            if last in mm.layers[0] and mm.layers[0][last] is not node:
+                self.orphan(mm.layers[0][last], mm)
             mm.layers[0][last] = node
         if created:
             self.flags['created_intermediate_maps'] += 1
         return created
+
+    def orphan(self, node, container):
+        """a handle or a whole sub-tree that an assignment just replaced: it is not part of the tree any more (the
+        program may well hold on to it and insert it again somewhere)"""
+        if isinstance(node, MMap) and node.obj is None:
+            return
+        self.orphans.append((node, container))
+        del self.orphans[:-12]
 
     def learn_objects(self):
         """maps created implicitly by the implementation: adopt the real object (then judged like any other)."""
@@ -322,6 +338,41 @@ class Run:
         if mm.obj.parent is not own_parent or mm.obj.key != own_key:
             self.viol('clear_detached_the_map_itself', path=path)
 
+    def op_reinsert(self, sel, names_ix):
+        """Something an earlier assignment replaced (a handle, or a sub-map with all it contains) is inserted again:
+        under another name in the map it used to live in (odd selectors, if that map is still part of the tree) or at
+        a generated path.  It lives in one place again and records that place."""
+        if not self.orphans:
+            return
+        node, container = self.orphans.pop(sel // 2 % len(self.orphans))
+        real = node.obj if isinstance(node, MMap) else node
+        reachable = [mm for mm, _p in self.all_maps()]
+        if isinstance(node, MMap):
+            inside = []
+
+            def rec(m):
+                inside.append(m)
+                for sub in m.maps.values():
+                    rec(sub)
+            rec(node)
+            if any(m in reachable for m in inside):
+                return          # (part of it was moved back into the tree meanwhile)
+        elif any(real is h for mm in reachable for layer in mm.layers for h in layer.values()):
+            return
+        if sel % 2 and container in reachable and not (isinstance(node, MMap) and container in inside):
+            mm, names = container, [NAMES[(sel // 2 + names_ix[0]) % len(NAMES)]]
+            self.flags['replaced_object_inserted_again_in_the_map_it_lived_in'] += 1
+        else:
+            mm, names = self.model, [NAMES[i] for i in names_ix]
+        key = '/'.join(names)
+        try:
+            mm.obj[key] = real
+        except Exception as exc:
+            self.viol('setitem_raised', key=key, exception=repr(exc))
+        self.model_set(mm, names, node)
+        self.learn_objects()
+        self.flags['replaced_object_inserted_again'] += 1
+
     def op_move(self, target, sel):
         """A sub-map is replaced by a new, empty map (latest assignment wins); some of its direct children are then
         inserted again under the new map - they MOVE, each object still lives in one place of the tree - and finally
@@ -367,6 +418,8 @@ class Run:
             self.viol('clear_raised', exception=repr(exc), of='a map that was replaced in the tree')
         if old.maps or len(old.handles) != 0 or any(layer for layer in old.handles.maps):
             self.viol('clear_leaves_handles_reachable', of='a map that was replaced in the tree')
+        mm.maps = {}
+        mm.layers = [{} for _ in mm.layers]
         for obj in stay:
             if obj.parent is not None or obj.key is not None:
                 self.viol('clear_does_not_detach_former_direct_child', of='a map that was replaced in the tree',
